@@ -532,21 +532,38 @@ structure DbInv (d : Db) : Prop where
   keys : TabInv true d.keys
   certs : TabInv true d.certs
 
-structure SysInv (s : Sys) : Prop where
+/-- properties of (TPM contents, key-id counter) that survive generating a fresh key and deleting keys -/
+structure JOk (J : List KeyName → Nat → Prop) : Prop where
+  app : ∀ t n m, J t n → J (t ++ [⟨m, n⟩]) (n + 1)
+  filt : ∀ t n (p : KeyName → Bool), J t n → J (t.filter p) n
+
+theorem JOk.trivial : JOk (fun _ _ => True) := ⟨fun _ _ _ _ => True.intro, fun _ _ _ _ => True.intro⟩
+
+/-- the invariant, with a slot `J` for an additional property of (TPM contents, key-id counter) -/
+structure SysInv (J : List KeyName → Nat → Prop) (s : Sys) : Prop where
   cur : DbInv s.cur
   com : DbInv s.com
   /-- a cached signer is the one `tpm.get_signer(key, locator)` would return, and its key file exists -/
   cache : ∀ e ∈ s.cache, e.2.key = e.1.1 ∧ e.2.loc = e.1.2 ∧ e.1.1 ∈ s.tpm
-  /-- key ids in the TPM have been generated -/
+  /-- key ids in the TPM and in the key tables have been generated -/
   kids : ∀ k ∈ s.tpm, k.kid < s.nextKid
+  keyKids : (∀ r ∈ s.cur.keys.rows, r.name.kid < s.nextKid) ∧ (∀ r ∈ s.com.keys.rows, r.name.kid < s.nextKid)
+  extra : J s.tpm s.nextKid
 
-theorem SysInv.init : SysInv Sys.init :=
+variable {J : List KeyName → Nat → Prop}
+
+theorem SysInv.init (h : J [] 0) : SysInv J Sys.init :=
   { cur := ⟨TabInv.empty _, TabInv.empty _, TabInv.empty _⟩
     com := ⟨TabInv.empty _, TabInv.empty _, TabInv.empty _⟩
     cache := fun _ h => by cases h
-    kids := fun _ h => by cases h }
+    kids := fun _ h => by cases h
+    keyKids := ⟨(fun _ h => by cases h), (fun _ h => by cases h)⟩
+    extra := h }
 
-theorem SysInv.fi : FI SysInv := fun _ _ h => ⟨h.cur, h.com, h.cache, h.kids⟩
+theorem SysInv.fi : FI (SysInv J) := fun _ _ h => ⟨h.cur, h.com, h.cache, h.kids, h.keyKids, h.extra⟩
+
+theorem SysInv.withJ {J' : List KeyName → Nat → Prop} {s : Sys} (h : SysInv J s) (h' : J' s.tpm s.nextKid) :
+    SysInv J' s := ⟨h.cur, h.com, h.cache, h.kids, h.keyKids, h'⟩
 
 theorem updIds_eq : updSetDefault (ν := Nat) (trs .identities) = setDefaultCF false := by
   funext n t; exact upd_ids n t
@@ -555,49 +572,78 @@ theorem updKeys_eq : updSetDefault (ν := KeyName) (trs .keys) = setDefaultCF tr
 theorem updCerts_eq : updSetDefault (ν := CertName) (trs .certificates) = setDefaultCF true := by
   funext n t; exact upd_certs n t
 
-theorem SysInv.modCur {f : Db → Db} (hf : ∀ d, DbInv d → DbInv (f d)) {s : Sys} (h : SysInv s) :
-    SysInv { s with cur := f s.cur } := ⟨hf _ h.cur, h.com, h.cache, h.kids⟩
+/-- a database write that keeps the per-table invariants and does not add key rows -/
+theorem pres_modCur {f : Db → Db} (hf : ∀ d, DbInv d → DbInv (f d))
+    (hk : ∀ d, ∀ r ∈ (f d).keys.rows, r ∈ d.keys.rows) : Pres (SysInv J) (modCur f) :=
+  Pres.modS fun s h => ⟨hf _ h.cur, h.com, h.cache, h.kids, ⟨fun r hr => h.keyKids.1 r (hk _ r hr), h.keyKids.2⟩, h.extra⟩
 
-theorem pres_modCur {f : Db → Db} (hf : ∀ d, DbInv d → DbInv (f d)) : Pres SysInv (modCur f) :=
-  Pres.modS fun _ h => h.modCur hf
+theorem pres_tick : Pres (SysInv J) tick := Pres.tick SysInv.fi
 
-theorem pres_tick : Pres SysInv tick := Pres.tick SysInv.fi
+theorem pres_commit : Pres (SysInv J) commit :=
+  Pres.bind pres_tick fun _ => Pres.modS fun _ h => ⟨h.cur, h.cur, h.cache, h.kids, ⟨h.keyKids.1, h.keyKids.1⟩, h.extra⟩
 
-theorem pres_commit : Pres SysInv commit :=
-  Pres.bind pres_tick fun _ => Pres.modS fun _ h => ⟨h.cur, h.cur, h.cache, h.kids⟩
+theorem setDefaultCF_mem_names {ν : Type} [DecidableEq ν] {sc : Bool} {n : ν} {t : Table ν} {r : Row ν}
+    (h : r ∈ setDefaultCF sc n t) : ∃ r' ∈ t, r'.name = r.name := by
+  have : r.name ∈ (setDefaultCF sc n t).map (·.name) := List.mem_map_of_mem h
+  rw [setDefaultCF_names] at this
+  obtain ⟨r', hr', e⟩ := List.mem_map.mp this
+  exact ⟨r', hr', e⟩
 
-theorem pres_execSetDefaultId (n : Nat) : Pres SysInv (execSetDefaultId n) :=
-  Pres.bind pres_tick fun _ => pres_modCur fun d h => by
-    rw [updIds_eq]; exact ⟨h.ids.setDefault n, h.keys, h.certs⟩
-theorem pres_execSetDefaultKey (k : KeyName) : Pres SysInv (execSetDefaultKey k) :=
-  Pres.bind pres_tick fun _ => pres_modCur fun d h => by
-    rw [updKeys_eq]; exact ⟨h.ids, h.keys.setDefault k, h.certs⟩
-theorem pres_execSetDefaultCert (c : CertName) : Pres SysInv (execSetDefaultCert c) :=
-  Pres.bind pres_tick fun _ => pres_modCur fun d h => by
-    rw [updCerts_eq]; exact ⟨h.ids, h.keys, h.certs.setDefault c⟩
+theorem pres_execSetDefaultId (n : Nat) : Pres (SysInv J) (execSetDefaultId n) :=
+  Pres.bind pres_tick fun _ => pres_modCur (fun d h => by
+    rw [updIds_eq]; exact ⟨h.ids.setDefault n, h.keys, h.certs⟩) (fun _ _ h => h)
+theorem pres_execSetDefaultKey (k : KeyName) : Pres (SysInv J) (execSetDefaultKey k) :=
+  Pres.bind pres_tick fun _ => Pres.modS fun s h => by
+    refine ⟨?_, h.com, h.cache, h.kids, ⟨fun r hr => ?_, h.keyKids.2⟩, h.extra⟩
+    · show DbInv { s.cur with keys := _ }
+      rw [updKeys_eq]; exact ⟨h.cur.ids, h.cur.keys.setDefault k, h.cur.certs⟩
+    · simp only [Tab.apply, updKeys_eq] at hr
+      obtain ⟨r', hr', e⟩ := setDefaultCF_mem_names hr
+      rw [← e]; exact h.keyKids.1 r' hr'
+theorem pres_execSetDefaultCert (c : CertName) : Pres (SysInv J) (execSetDefaultCert c) :=
+  Pres.bind pres_tick fun _ => pres_modCur (fun d h => by
+    rw [updCerts_eq]; exact ⟨h.ids, h.keys, h.certs.setDefault c⟩) (fun _ _ h => h)
 
-theorem pres_execInsertId (n : Nat) : Pres SysInv (execInsertId n) := by
-  refine Pres.bind pres_tick fun _ => Triple.bind (Q' := fun a s => SysInv s ∧ a = s) Triple.getS fun a => ?_
+theorem pres_execInsertId (n : Nat) : Pres (SysInv J) (execInsertId n) := by
+  refine Pres.bind pres_tick fun _ => Triple.bind (Q' := fun a s => SysInv J s ∧ a = s) Triple.getS fun a => ?_
   split
   · exact Triple.raise fun _ h => h.1
   · rename_i t ht
     refine Triple.modS fun s h => ?_
     obtain ⟨h, rfl⟩ := h
     rw [ins_ids] at ht
-    exact ⟨⟨h.cur.ids.insert ht, h.cur.keys, h.cur.certs⟩, h.com, h.cache, h.kids⟩
+    exact ⟨⟨h.cur.ids.insert ht, h.cur.keys, h.cur.certs⟩, h.com, h.cache, h.kids, h.keyKids, h.extra⟩
 
-theorem pres_execInsertKey (o : Nat) (k : KeyName) : Pres SysInv (execInsertKey o k) := by
-  refine Pres.bind pres_tick fun _ => Triple.bind (Q' := fun a s => SysInv s ∧ a = s) Triple.getS fun a => ?_
+theorem insertCF_mem_names {ν : Type} [DecidableEq ν] {sc : Bool} {o : Nat} {n : ν} {t t' : Table ν} {r : Row ν}
+    (hi : insertCF sc o n t = some t') (h : r ∈ t') : r.name = n ∨ ∃ r' ∈ t, r'.name = r.name := by
+  have : r.name ∈ t'.map (·.name) := List.mem_map_of_mem h
+  rw [(insertCF_names hi).1, List.mem_append] at this
+  rcases this with h1 | h1
+  · obtain ⟨r', hr', e⟩ := List.mem_map.mp h1
+    exact Or.inr ⟨r', hr', e⟩
+  · simp at h1; exact Or.inl h1
+
+/-- inserting a key row needs its key id to have been generated -/
+theorem triple_execInsertKey (o : Nat) (k : KeyName) :
+    Triple (fun s => SysInv J s ∧ k.kid < s.nextKid) (execInsertKey o k) (fun _ => SysInv J) (fun _ => SysInv J) := by
+  refine Triple.bind (Q' := fun _ s => SysInv J s ∧ k.kid < s.nextKid)
+    (Triple.conseq (Triple.tick (P := fun s => SysInv J s ∧ k.kid < s.nextKid) fun s f h => ⟨SysInv.fi s f h.1, h.2⟩)
+      (fun _ h => h) (fun _ _ h => h) (fun _ _ h => h.1)) fun _ => ?_
+  refine Triple.bind (Q' := fun a s => (SysInv J s ∧ k.kid < s.nextKid) ∧ a = s) Triple.getS fun a => ?_
   split
-  · exact Triple.raise fun _ h => h.1
+  · exact Triple.raise fun _ h => h.1.1
   · rename_i t ht
     refine Triple.modS fun s h => ?_
-    obtain ⟨h, rfl⟩ := h
+    obtain ⟨⟨h, hk⟩, rfl⟩ := h
     rw [ins_keys] at ht
-    exact ⟨⟨h.cur.ids, h.cur.keys.insert ht, h.cur.certs⟩, h.com, h.cache, h.kids⟩
+    refine ⟨⟨h.cur.ids, h.cur.keys.insert ht, h.cur.certs⟩, h.com, h.cache, h.kids, ⟨fun r hr => ?_, h.keyKids.2⟩, h.extra⟩
+    simp only [Tab.apply] at hr
+    rcases insertCF_mem_names ht hr with e | ⟨r', hr', e⟩
+    · rw [e]; exact hk
+    · rw [← e]; exact h.keyKids.1 r' hr'
 
-theorem pres_execInsertCert (k : KeyName) (c : CertName) : Pres SysInv (execInsertCert k c) := by
-  refine Pres.bind pres_tick fun _ => Triple.bind (Q' := fun a s => SysInv s ∧ a = s) Triple.getS fun a => ?_
+theorem pres_execInsertCert (k : KeyName) (c : CertName) : Pres (SysInv J) (execInsertCert k c) := by
+  refine Pres.bind pres_tick fun _ => Triple.bind (Q' := fun a s => SysInv J s ∧ a = s) Triple.getS fun a => ?_
   split
   · exact Triple.raise fun _ h => h.1
   · split
@@ -606,32 +652,32 @@ theorem pres_execInsertCert (k : KeyName) (c : CertName) : Pres SysInv (execInse
       refine Triple.modS fun s h => ?_
       obtain ⟨h, rfl⟩ := h
       rw [ins_certs] at ht
-      exact ⟨⟨h.cur.ids, h.cur.keys, h.cur.certs.insert ht⟩, h.com, h.cache, h.kids⟩
+      exact ⟨⟨h.cur.ids, h.cur.keys, h.cur.certs.insert ht⟩, h.com, h.cache, h.kids, h.keyKids, h.extra⟩
 
-theorem pres_lookupId (n : Nat) : Pres SysInv (lookupId n) :=
+theorem pres_lookupId (n : Nat) : Pres (SysInv J) (lookupId n) :=
   Pres.bind Pres.getS fun _ => Pres.ofOpt _ _
 
-theorem pres_lookupKey (k : KeyName) : Pres SysInv (lookupKey k) :=
+theorem pres_lookupKey (k : KeyName) : Pres (SysInv J) (lookupKey k) :=
   Pres.bind (pres_lookupId _) fun _ => Pres.bind Pres.getS fun _ => Pres.ofOpt _ _
 
-theorem pres_setDefaultIdentity (n : Nat) : Pres SysInv (setDefaultIdentity n) :=
+theorem pres_setDefaultIdentity (n : Nat) : Pres (SysInv J) (setDefaultIdentity n) :=
   Pres.bind (pres_execSetDefaultId n) fun _ => pres_commit
 
-theorem pres_newIdentity (n : Nat) : Pres SysInv (newIdentity n) := by
+theorem pres_newIdentity (n : Nat) : Pres (SysInv J) (newIdentity n) := by
   unfold newIdentity
   refine Pres.bind Pres.getS fun _ => Pres.bind (Pres.raiseIf _ _) fun _ =>
     Pres.bind (pres_execInsertId n) fun _ => Pres.bind pres_commit fun _ => Pres.bind Pres.getS fun _ =>
     Pres.bind (Pres.whenM (pres_setDefaultIdentity n)) fun _ =>
     Pres.bind (pres_lookupId n) fun _ => Pres.pure _
 
-theorem pres_newKey (n : Nat) (bad : Bool) : Pres SysInv (newKey n bad) := by
+theorem pres_newKey (hJ : JOk J) (n : Nat) (bad : Bool) : Pres (SysInv J) (newKey n bad) := by
   unfold newKey
   refine Pres.bind (pres_lookupId n) fun i => Pres.bind pres_tick fun _ =>
     Pres.bind (Pres.raiseIf _ _) fun _ =>
-    Triple.bind (Q' := fun a s => SysInv s ∧ a = s) Triple.getS fun a => ?_
-  refine Triple.bind (Q' := fun _ s => SysInv s) (Triple.modS fun s h => ?_) fun _ => ?_
+    Triple.bind (Q' := fun a s => SysInv J s ∧ a = s) Triple.getS fun a => ?_
+  refine Triple.bind (Q' := fun _ s => SysInv J s ∧ a.nextKid < s.nextKid) (Triple.modS fun s h => ?_) fun _ => ?_
   · obtain ⟨h, rfl⟩ := h
-    refine ⟨h.cur, h.com, fun e he => ?_, fun k hk => ?_⟩
+    refine ⟨⟨h.cur, h.com, fun e he => ?_, fun k hk => ?_, ⟨fun r hr => ?_, fun r hr => ?_⟩, hJ.app _ _ _ h.extra⟩, ?_⟩
     · obtain ⟨h1, h2, h3⟩ := h.cache e he
       exact ⟨h1, h2, List.mem_append_left _ h3⟩
     · simp only [List.mem_append, List.mem_singleton] at hk
@@ -641,102 +687,120 @@ theorem pres_newKey (n : Nat) (bad : Bool) : Pres SysInv (newKey n bad) := by
         omega
       · show a.nextKid < a.nextKid + 1
         omega
-  · refine Pres.bind pres_tick fun _ => Pres.bind Pres.getS fun _ =>
-      Pres.bind (Pres.raiseIf _ _) fun _ =>
-      Pres.bind (pres_execInsertKey _ _) fun _ => Pres.bind (pres_execInsertCert _ _) fun _ =>
-      Pres.bind pres_commit fun _ => Pres.bind Pres.getS fun _ =>
-      Pres.bind (Pres.whenM (Pres.bind (pres_execSetDefaultKey _) fun _ => pres_commit)) fun _ =>
-      Pres.bind Pres.getS fun _ => Pres.bind (Pres.ofOpt _ _) fun _ => Pres.pure _
+    · have := h.keyKids.1 r hr
+      show r.name.kid < a.nextKid + 1
+      omega
+    · have := h.keyKids.2 r hr
+      show r.name.kid < a.nextKid + 1
+      omega
+    · show a.nextKid < a.nextKid + 1
+      omega
+  · have fiA : FI (fun s => SysInv J s ∧ a.nextKid < s.nextKid) := fun s f h => ⟨SysInv.fi s f h.1, h.2⟩
+    refine Triple.bind (Q' := fun _ s => SysInv J s ∧ a.nextKid < s.nextKid)
+      (Triple.conseq (Triple.tick fiA) (fun _ h => h) (fun _ _ h => h) (fun _ _ h => h.1)) fun _ => ?_
+    refine Triple.bind (Q' := fun _ s => SysInv J s ∧ a.nextKid < s.nextKid)
+      (fun s h => h) fun _ => ?_
+    refine Triple.bind (Q' := fun _ s => SysInv J s ∧ a.nextKid < s.nextKid) ?_ fun _ => ?_
+    · unfold raiseIf; split
+      · exact Triple.raise fun _ h => h.1
+      · exact Triple.pure fun _ h => h
+    · refine Triple.bind (Q' := fun _ s => SysInv J s) (triple_execInsertKey i.rid ⟨n, a.nextKid⟩) fun _ => ?_
+      exact Pres.bind (pres_execInsertCert _ _) fun _ =>
+        Pres.bind pres_commit fun _ => Pres.bind Pres.getS fun _ =>
+        Pres.bind (Pres.whenM (Pres.bind (pres_execSetDefaultKey _) fun _ => pres_commit)) fun _ =>
+        Pres.bind Pres.getS fun _ => Pres.bind (Pres.ofOpt _ _) fun _ => Pres.pure _
 
-theorem pres_touchIdentity (n : Nat) : Pres SysInv (touchIdentity n) := by
+theorem pres_touchIdentity (hJ : JOk J) (n : Nat) : Pres (SysInv J) (touchIdentity n) := by
   unfold touchIdentity
   refine Pres.bind Pres.getS fun _ =>
-    Pres.bind (Pres.whenM (Pres.bind (pres_execInsertId n) fun _ => Pres.bind pres_commit fun _ => pres_newKey n false)) fun _ =>
+    Pres.bind (Pres.whenM (Pres.bind (pres_execInsertId n) fun _ => Pres.bind pres_commit fun _ => pres_newKey hJ n false)) fun _ =>
     Pres.bind Pres.getS fun _ => Pres.bind (Pres.whenM (pres_setDefaultIdentity n)) fun _ =>
     Pres.bind (pres_lookupId n) fun _ => Pres.pure _
 
-theorem pres_importCert (k : KeyName) (c : CertName) : Pres SysInv (importCert k c) :=
+theorem pres_importCert (k : KeyName) (c : CertName) : Pres (SysInv J) (importCert k c) :=
   Pres.bind (pres_execInsertCert k c) fun _ => pres_commit
 
-theorem pres_setDefaultKey (v : Nat) (k : KeyName) : Pres SysInv (setDefaultKey v k) :=
+theorem pres_setDefaultKey (v : Nat) (k : KeyName) : Pres (SysInv J) (setDefaultKey v k) :=
   Pres.bind (pres_lookupId v) fun _ => Pres.bind (pres_execSetDefaultKey k) fun _ => pres_commit
 
-theorem pres_setDefaultCert (v : KeyName) (c : CertName) : Pres SysInv (setDefaultCert v c) :=
+theorem pres_setDefaultCert (v : KeyName) (c : CertName) : Pres (SysInv J) (setDefaultCert v c) :=
   Pres.bind (pres_lookupKey v) fun _ => Pres.bind (pres_execSetDefaultCert c) fun _ => pres_commit
 
-theorem pres_clearCache : Pres SysInv clearCache :=
-  Pres.modS fun _ h => ⟨h.cur, h.com, (fun _ he => by cases he), h.kids⟩
+theorem pres_clearCache : Pres (SysInv J) clearCache :=
+  Pres.modS fun _ h => ⟨h.cur, h.com, (fun _ he => by cases he), h.kids, h.keyKids, h.extra⟩
 
-theorem pres_delCert (c : CertName) : Pres SysInv (delCert c) :=
+theorem pres_delCert (c : CertName) : Pres (SysInv J) (delCert c) :=
   Pres.bind pres_tick fun _ =>
-    Pres.bind (pres_modCur fun _ h => ⟨h.ids, h.keys, h.certs.delete _⟩) fun _ =>
+    Pres.bind (pres_modCur (fun _ h => ⟨h.ids, h.keys, h.certs.delete _⟩) (fun _ _ h => h)) fun _ =>
     Pres.bind pres_commit fun _ => pres_clearCache
 
-theorem pres_tpmDelete (k : KeyName) :
-    Pres SysInv (modS (fun s => { s with tpm := s.tpm.filter fun x => x ≠ k }) >>= fun _ => clearCache) := by
+theorem pres_tpmDelete (hJ : JOk J) (k : KeyName) :
+    Pres (SysInv J) (modS (fun s => { s with tpm := s.tpm.filter fun x => x ≠ k }) >>= fun _ => clearCache) := by
   intro s h
   simp only [run_bind, run_modS, clearCache]
-  exact ⟨h.cur, h.com, (fun _ he => by cases he), fun x hx => h.kids x (List.mem_filter.mp hx).1⟩
+  exact ⟨h.cur, h.com, (fun _ he => by cases he), fun x hx => h.kids x (List.mem_filter.mp hx).1, h.keyKids,
+    hJ.filt _ _ _ h.extra⟩
 
-theorem pres_delKey (k : KeyName) : Pres SysInv (delKey k) := by
+theorem pres_delKey (hJ : JOk J) (k : KeyName) : Pres (SysInv J) (delKey k) := by
   unfold delKey
   exact Pres.bind (pres_lookupKey k) fun kr => Pres.bind pres_tick fun _ =>
-    Pres.bind (pres_modCur fun _ h => ⟨h.ids, h.keys, h.certs.delete _⟩) fun _ =>
+    Pres.bind (pres_modCur (fun _ h => ⟨h.ids, h.keys, h.certs.delete _⟩) (fun _ _ h => h)) fun _ =>
     Pres.bind pres_tick fun _ =>
-    Pres.bind (pres_modCur fun _ h => ⟨h.ids, h.keys.delete _, h.certs⟩) fun _ =>
-    Pres.bind pres_commit fun _ => Pres.bind pres_tick fun _ => pres_tpmDelete k
+    Pres.bind (pres_modCur (fun _ h => ⟨h.ids, h.keys.delete _, h.certs⟩)
+      (fun _ _ h => (List.mem_filter.mp h).1)) fun _ =>
+    Pres.bind pres_commit fun _ => Pres.bind pres_tick fun _ => pres_tpmDelete hJ k
 
-theorem pres_delKeys (ks : List KeyName) : Pres SysInv (delKeys ks) := by
+theorem pres_delKeys (hJ : JOk J) (ks : List KeyName) : Pres (SysInv J) (delKeys ks) := by
   induction ks with
   | nil => exact Pres.pure _
-  | cons k r ih => exact Pres.bind (pres_delKey k) fun _ => ih
+  | cons k r ih => exact Pres.bind (pres_delKey hJ k) fun _ => ih
 
-theorem pres_delIdentity (n : Nat) : Pres SysInv (delIdentity n) := by
+theorem pres_delIdentity (hJ : JOk J) (n : Nat) : Pres (SysInv J) (delIdentity n) := by
   unfold delIdentity
-  exact Pres.bind (pres_lookupId n) fun _ => Pres.bind Pres.getS fun _ => Pres.bind (pres_delKeys _) fun _ =>
+  exact Pres.bind (pres_lookupId n) fun _ => Pres.bind Pres.getS fun _ => Pres.bind (pres_delKeys hJ _) fun _ =>
     Pres.bind pres_tick fun _ =>
-    Pres.bind (pres_modCur fun _ h => ⟨h.ids.delete _, h.keys, h.certs⟩) fun _ =>
+    Pres.bind (pres_modCur (fun _ h => ⟨h.ids.delete _, h.keys, h.certs⟩) (fun _ _ h => h)) fun _ =>
     Pres.bind pres_commit fun _ => pres_clearCache
 
-theorem pres_delCertViaKey (v : KeyName) (c : CertName) : Pres SysInv (delCertViaKey v c) :=
+theorem pres_delCertViaKey (v : KeyName) (c : CertName) : Pres (SysInv J) (delCertViaKey v c) :=
   Pres.bind (pres_lookupKey v) fun _ => Pres.raise _
 
-theorem pres_reopen : Pres SysInv reopen :=
-  Pres.modS fun _ h => ⟨h.com, h.com, (fun _ he => by cases he), h.kids⟩
+theorem pres_reopen : Pres (SysInv J) reopen :=
+  Pres.modS fun _ h => ⟨h.com, h.com, (fun _ he => by cases he), h.kids, ⟨h.keyKids.2, h.keyKids.2⟩, h.extra⟩
 
-theorem pres_getSigner (sel : Sel) (loc : Option Nat) : Pres SysInv (getSigner sel loc) := by
+theorem pres_getSigner (sel : Sel) (loc : Option Nat) : Pres (SysInv J) (getSigner sel loc) := by
   unfold getSigner
-  refine Triple.bind (Q' := fun a s => SysInv s ∧ a.tpm = s.tpm) (fun s h => ⟨h, rfl⟩) fun a => ?_
-  refine Triple.bind (Q' := fun _ s => SysInv s ∧ a.tpm = s.tpm)
+  refine Triple.bind (Q' := fun a s => SysInv J s ∧ a.tpm = s.tpm) (fun s h => ⟨h, rfl⟩) fun a => ?_
+  refine Triple.bind (Q' := fun _ s => SysInv J s ∧ a.tpm = s.tpm)
     (Triple.ofOpt (fun _ _ _ h => h) (fun _ _ h => h.1)) fun kc => ?_
   obtain ⟨k, c⟩ := kc
   dsimp only
   split
   · exact Triple.pure fun _ h => h.1
-  · refine Triple.bind (Q' := fun _ s => SysInv s ∧ a.tpm = s.tpm) ?_ fun _ => ?_
-    · exact Triple.conseq (Triple.tick (P := fun s => SysInv s ∧ a.tpm = s.tpm) fun s f h => ⟨SysInv.fi s f h.1, h.2⟩)
+  · refine Triple.bind (Q' := fun _ s => SysInv J s ∧ a.tpm = s.tpm) ?_ fun _ => ?_
+    · exact Triple.conseq (Triple.tick (P := fun s => SysInv J s ∧ a.tpm = s.tpm) fun s f h => ⟨SysInv.fi s f h.1, h.2⟩)
         (fun _ h => h) (fun _ _ h => h) (fun _ _ h => h.1)
     · split
       · rename_i hk
-        refine Triple.bind (Q' := fun _ s => SysInv s) (Triple.modS fun s h => ?_) fun _ => Triple.pure fun _ h => h
-        refine ⟨h.1.cur, h.1.com, fun e he => ?_, h.1.kids⟩
+        refine Triple.bind (Q' := fun _ s => SysInv J s) (Triple.modS fun s h => ?_) fun _ => Triple.pure fun _ h => h
+        refine ⟨h.1.cur, h.1.com, fun e he => ?_, h.1.kids, h.1.keyKids, h.1.extra⟩
         simp only [List.mem_append, List.mem_singleton] at he
         rcases he with he | rfl
         · exact h.1.cache e he
         · exact ⟨rfl, rfl, by rw [← h.2]; exact hk⟩
       · exact Triple.raise fun _ h => h.1
 
-theorem pres_prog (op : Op) : Pres SysInv op.prog := by
+theorem pres_prog (hJ : JOk J) (op : Op) : Pres (SysInv J) op.prog := by
   cases op <;> simp only [Op.prog]
   · exact Pres.bind (pres_newIdentity _) fun _ => Pres.pure _
-  · exact Pres.bind (pres_touchIdentity _) fun _ => Pres.pure _
-  · exact Pres.bind (pres_newKey _ _) fun _ => Pres.pure _
+  · exact Pres.bind (pres_touchIdentity hJ _) fun _ => Pres.pure _
+  · exact Pres.bind (pres_newKey hJ _ _) fun _ => Pres.pure _
   · exact Pres.bind (pres_importCert _ _) fun _ => Pres.pure _
   · exact Pres.bind (pres_setDefaultIdentity _) fun _ => Pres.pure _
   · exact Pres.bind (pres_setDefaultKey _ _) fun _ => Pres.pure _
   · exact Pres.bind (pres_setDefaultCert _ _) fun _ => Pres.pure _
-  · exact Pres.bind (pres_delIdentity _) fun _ => Pres.pure _
-  · exact Pres.bind (pres_delKey _) fun _ => Pres.pure _
+  · exact Pres.bind (pres_delIdentity hJ _) fun _ => Pres.pure _
+  · exact Pres.bind (pres_delKey hJ _) fun _ => Pres.pure _
   · exact Pres.bind (pres_delCert _) fun _ => Pres.pure _
   · exact Pres.bind (pres_delCertViaKey _ _) fun _ => Pres.pure _
   · exact Pres.bind (pres_getSigner _ _) fun _ => Pres.pure _
@@ -757,8 +821,423 @@ theorem run_of_pres {I : Sys → Prop} (hfi : FI I) (hp : ∀ op, Pres I (Op.pro
   | nil => exact h
   | cons o r ih => exact ih _ (step_of_pres hfi hp s o h)
 
+/-- the plain invariant -/
+abbrev Inv : Sys → Prop := SysInv fun _ _ => True
+
 /-- the invariant holds after every history, with any storage failures injected -/
-theorem sysInv_run (ops : List (Op × Option Nat)) : SysInv (run Sys.init ops) :=
-  run_of_pres SysInv.fi pres_prog _ ops SysInv.init
+theorem sysInv_run (ops : List (Op × Option Nat)) : Inv (run Sys.init ops) :=
+  run_of_pres SysInv.fi (pres_prog JOk.trivial) _ ops (SysInv.init True.intro)
+
+/-! ### Part 4: what the operations achieve -/
+
+/-- the parts of the state `get_signer` reads -/
+def Frozen (s0 s : Sys) : Prop := s.cur = s0.cur ∧ s.tpm = s0.tpm ∧ s.cache = s0.cache
+
+theorem cacheGet_some {c : List ((KeyName × Loc) × Signer)} {k : KeyName × Loc} {sg : Signer}
+    (h : cacheGet c k = some sg) : ((k, sg) : (KeyName × Loc) × Signer) ∈ c := by
+  unfold cacheGet at h
+  cases hf : c.find? (fun e => e.1 = k) with
+  | none => simp [hf] at h
+  | some e =>
+    simp [hf] at h
+    have h1 := List.mem_of_find?_eq_some hf
+    have h2 := List.find?_some hf
+    simp only [decide_eq_true_eq] at h2
+    rcases e with ⟨e1, e2⟩
+    simp only at h h2
+    subst h; subst h2
+    exact h1
+
+/-- `get_signer` returns the signer for the resolved key and key locator; the key's private key exists -/
+theorem getSigner_spec (sel : Sel) (loc : Option Nat) (s0 : Sys) :
+    Triple (fun s => SysInv J s ∧ Frozen s0 s) (getSigner sel loc)
+      (fun sg _ => ∃ k c, resolve s0.cur sel = some (k, c) ∧ sg = ⟨k, locOf loc c⟩ ∧ k ∈ s0.tpm)
+      (fun _ _ => True) := by
+  unfold getSigner
+  refine Triple.bind (Q' := fun a s => SysInv J s ∧ Frozen s0 s ∧ Frozen s0 a) (fun s h => ⟨h.1, h.2, h.2⟩) fun a => ?_
+  refine Triple.bind (Q' := fun kc s => (SysInv J s ∧ Frozen s0 s ∧ Frozen s0 a) ∧ resolve a.cur sel = some kc)
+    (Triple.ofOpt (fun kc s ho h => ⟨h, ho⟩) (fun _ _ _ => trivial)) fun kc => ?_
+  obtain ⟨k, c⟩ := kc
+  dsimp only
+  split
+  · rename_i sg hc
+    refine Triple.pure fun s h => ?_
+    obtain ⟨⟨hi, hs, ha⟩, hr⟩ := h
+    have hmem := cacheGet_some hc
+    rw [ha.2.2, ← hs.2.2] at hmem
+    obtain ⟨h1, h2, h3⟩ := hi.cache _ hmem
+    simp only at h1 h2 h3
+    refine ⟨k, c, by rw [← ha.1]; exact hr, ?_, by rw [← hs.2.1]; exact h3⟩
+    rcases sg with ⟨sk, sl⟩
+    simp only at h1 h2
+    rw [h1, h2]
+  · have fiA : FI (fun s => (SysInv J s ∧ Frozen s0 s ∧ Frozen s0 a) ∧ resolve a.cur sel = some (k, c)) :=
+      fun s f h => ⟨⟨SysInv.fi s f h.1.1, h.1.2.1, h.1.2.2⟩, h.2⟩
+    refine Triple.bind (Q' := fun _ s => (SysInv J s ∧ Frozen s0 s ∧ Frozen s0 a) ∧ resolve a.cur sel = some (k, c))
+      (Triple.conseq (Triple.tick fiA) (fun _ h => h) (fun _ _ h => h) (fun _ _ _ => trivial)) fun _ => ?_
+    split
+    · rename_i hk
+      refine Triple.bind (Q' := fun _ _ => resolve s0.cur sel = some (k, c) ∧ k ∈ s0.tpm)
+        (Triple.modS fun s h => ⟨by rw [← h.1.2.2.1]; exact h.2, by rw [← h.1.2.2.2.1]; exact hk⟩) fun _ => ?_
+      exact Triple.pure fun s h => ⟨k, c, h.1, rfl, h.2⟩
+    · exact Triple.raise fun _ _ => trivial
+
+theorem Triple.tickT {P : Sys → Prop} (h : FI P) : Triple P Keychain.tick (fun _ => P) (fun _ _ => True) :=
+  Triple.conseq (Triple.tick h) (fun _ h => h) (fun _ _ h => h) (fun _ _ _ => trivial)
+
+/-- database, TPM contents and key-id counter are as given -/
+def AtDb (d : Db) (t : List KeyName) (n : Nat) (s : Sys) : Prop := s.cur = d ∧ s.tpm = t ∧ s.nextKid = n
+
+theorem AtDb.fi (d : Db) (t : List KeyName) (n : Nat) : FI (AtDb d t n) := fun _ _ h => h
+
+theorem lookupId_spec (d : Db) (t : List KeyName) (n : Nat) (i : Nat) :
+    Triple (AtDb d t n) (lookupId i) (fun ir s => AtDb d t n s ∧ idRow? d i = some ir) (fun _ _ => True) := by
+  unfold lookupId
+  refine Triple.bind (Q' := fun a s => AtDb d t n s ∧ a = s) Triple.getS fun a => ?_
+  exact Triple.ofOpt (fun ir s ho h => ⟨h.1, by rw [← h.1.1, ← h.2]; exact ho⟩) (fun _ _ _ => trivial)
+
+theorem lookupKey_spec (d : Db) (t : List KeyName) (n : Nat) (k : KeyName) :
+    Triple (AtDb d t n) (lookupKey k)
+      (fun kr s => AtDb d t n s ∧ ∃ ir, idRow? d k.idn = some ir ∧ keyRow? d ir.rid k = some kr)
+      (fun _ _ => True) := by
+  unfold lookupKey
+  refine Triple.bind (lookupId_spec d t n k.idn) fun ir => ?_
+  refine Triple.bind (Q' := fun a s => (AtDb d t n s ∧ idRow? d k.idn = some ir) ∧ a = s) Triple.getS fun a => ?_
+  exact Triple.ofOpt (fun kr s ho h => ⟨h.1.1, ir, h.1.2, by rw [← h.1.1.1, ← h.2]; exact ho⟩) (fun _ _ _ => trivial)
+
+/-- what a successful `del_key k` did, relative to the state `s0` it started from -/
+structure DelKeyPost (k : KeyName) (s0 s' : Sys) : Prop where
+  found : ∃ ir kr, idRow? s0.cur k.idn = some ir ∧ keyRow? s0.cur ir.rid k = some kr ∧
+    s'.cur.certs.rows = s0.cur.certs.rows.filter (fun c => !(c.owner == kr.rid))
+  keys : s'.cur.keys.rows = s0.cur.keys.rows.filter (fun r => !decide (r.name = k))
+  ids : s'.cur.ids = s0.cur.ids
+  tpm : s'.tpm = s0.tpm.filter (fun x => x ≠ k)
+  kid : s'.nextKid = s0.nextKid
+  committed : s'.com = s'.cur
+  cache : s'.cache = []
+
+theorem delKey_spec (k : KeyName) (s0 : Sys) :
+    Triple (AtDb s0.cur s0.tpm s0.nextKid) (delKey k) (fun _ s' => DelKeyPost k s0 s') (fun _ _ => True) := by
+  unfold delKey
+  refine Triple.bind (lookupKey_spec _ _ _ k) fun kr => ?_
+  -- the facts about the row found do not depend on the state
+  refine Triple.conseq (P := fun s => AtDb s0.cur s0.tpm s0.nextKid s ∧
+      ∃ ir, idRow? s0.cur k.idn = some ir ∧ keyRow? s0.cur ir.rid k = some kr) ?_ (fun _ h => h) (fun _ _ h => h) (fun _ _ h => h)
+  intro s hs
+  obtain ⟨hs, ir, hir, hkr⟩ := hs
+  revert s hs
+  show Triple (AtDb s0.cur s0.tpm s0.nextKid) _ _ _
+  let d1 : Db := { s0.cur with certs := s0.cur.certs.delete true fun r => r.owner == kr.rid }
+  let d2 : Db := { d1 with keys := d1.keys.delete true fun r => decide (r.name = k) }
+  refine Triple.bind (Triple.tickT (AtDb.fi _ _ _)) fun _ => ?_
+  refine Triple.bind (Q' := fun _ => AtDb d1 s0.tpm s0.nextKid)
+    (Triple.modS fun s h => ⟨by show _ = d1; rw [h.1], h.2.1, h.2.2⟩) fun _ => ?_
+  refine Triple.bind (Triple.tickT (AtDb.fi _ _ _)) fun _ => ?_
+  refine Triple.bind (Q' := fun _ => AtDb d2 s0.tpm s0.nextKid)
+    (Triple.modS fun s h => ⟨by show _ = d2; rw [h.1], h.2.1, h.2.2⟩) fun _ => ?_
+  have fiB : FI (fun s => AtDb d2 s0.tpm s0.nextKid s ∧ s.com = s.cur) := fun _ _ h => h
+  refine Triple.bind (Q' := fun _ s => AtDb d2 s0.tpm s0.nextKid s ∧ s.com = s.cur) ?_ fun _ => ?_
+  · unfold commit
+    exact Triple.bind (Triple.tickT (AtDb.fi _ _ _)) fun _ => Triple.modS fun s h => ⟨h, rfl⟩
+  refine Triple.bind (Triple.tickT fiB) fun _ => ?_
+  refine Triple.bind (Q' := fun _ s => AtDb d2 (s0.tpm.filter fun x => x ≠ k) s0.nextKid s ∧ s.com = s.cur)
+    (Triple.modS fun s h => ⟨⟨h.1.1, by show List.filter _ s.tpm = _; rw [h.1.2.1], h.1.2.2⟩, h.2⟩) fun _ => ?_
+  refine Triple.modS fun s h => ?_
+  obtain ⟨⟨h1, h2, h3⟩, h4⟩ := h
+  exact { found := ⟨ir, kr, hir, hkr, by show s.cur.certs.rows = _; rw [h1]; rfl⟩
+          keys := by show s.cur.keys.rows = _; rw [h1]; rfl
+          ids := by show s.cur.ids = _; rw [h1]
+          tpm := h2, kid := h3, committed := h4, cache := rfl }
+
+/-- what a successful `del_key` loop over `ks` did -/
+structure DelKeysPost (ks : List KeyName) (s0 s' : Sys) : Prop where
+  keys : s'.cur.keys.rows = s0.cur.keys.rows.filter (fun r => !decide (r.name ∈ ks))
+  certs : ∀ c ∈ s'.cur.certs.rows, c ∈ s0.cur.certs.rows ∧
+    ∀ kr ∈ s0.cur.keys.rows, kr.name ∈ ks → c.owner ≠ kr.rid
+  ids : s'.cur.ids = s0.cur.ids
+  tpm : s'.tpm = s0.tpm.filter (fun x => !decide (x ∈ ks))
+  kid : s'.nextKid = s0.nextKid
+
+theorem delKeys_spec (ks : List KeyName) : ∀ s0 : Sys, NamesU s0.cur.keys.rows →
+    Triple (AtDb s0.cur s0.tpm s0.nextKid) (delKeys ks) (fun _ s' => DelKeysPost ks s0 s') (fun _ _ => True) := by
+  induction ks with
+  | nil =>
+    intro s0 _
+    refine Triple.pure fun s h => ?_
+    obtain ⟨h1, h2, h3⟩ := h
+    exact { keys := by rw [h1]; simp only [List.not_mem_nil, decide_false, Bool.not_false]; exact (List.filter_eq_self.mpr fun _ _ => rfl).symm
+            certs := fun c hc => ⟨by rw [← h1]; exact hc, fun _ _ hk => by cases hk⟩
+            ids := by rw [h1]
+            tpm := by rw [h2]; simp only [List.not_mem_nil, decide_false, Bool.not_false]; exact (List.filter_eq_self.mpr fun _ _ => rfl).symm
+            kid := h3 }
+  | cons k r ih =>
+    intro s0 hn
+    unfold delKeys
+    refine Triple.bind (delKey_spec k s0) fun _ => ?_
+    intro s1 h1
+    have hn1 : NamesU s1.cur.keys.rows := by rw [h1.keys]; exact namesU_filter _ hn
+    have h2 := ih s1 hn1 s1 ⟨rfl, rfl, rfl⟩
+    rcases hm : (delKeys r).run s1 with ⟨e | u, s'⟩ <;> simp only [hm] at h2 ⊢
+    obtain ⟨ir, kr0, hir, hkr0, hcerts⟩ := h1.found
+    obtain ⟨hkr0m, hkr0p⟩ := List.mem_of_find?_eq_some hkr0, List.find?_some hkr0
+    simp only [Bool.and_eq_true, decide_eq_true_eq, beq_iff_eq] at hkr0p
+    refine { keys := ?_, certs := fun c hc => ?_, ids := h2.ids.trans h1.ids, tpm := ?_, kid := h2.kid.trans h1.kid }
+    · rw [h2.keys, h1.keys, List.filter_filter]
+      apply List.filter_congr
+      intro x _
+      by_cases hx : x.name = k <;> simp [hx]
+    · obtain ⟨hc1, hc2⟩ := h2.certs c hc
+      rw [hcerts, List.mem_filter] at hc1
+      refine ⟨hc1.1, fun kr hkr hmem => ?_⟩
+      by_cases hk : kr.name = k
+      · have : kr = kr0 := eq_of_name_eq hn hkr hkr0m (hk.trans hkr0p.1.symm)
+        subst this
+        have := hc1.2
+        simp only [Bool.not_eq_true', beq_eq_false_iff_ne, ne_eq] at this
+        exact this
+      · have hmem' : kr.name ∈ r := by
+          simp only [List.mem_cons] at hmem
+          rcases hmem with h | h
+          · exact absurd h hk
+          · exact h
+        refine hc2 kr ?_ hmem'
+        rw [h1.keys, List.mem_filter]
+        exact ⟨hkr, by simp [hk]⟩
+    · rw [h2.tpm, h1.tpm, List.filter_filter]
+      apply List.filter_congr
+      intro x _
+      by_cases hx : x = k <;> simp [hx]
+
+/-- what a successful `del_identity n` did (`ks` = the keys the identity had) -/
+structure DelIdPost (n : Nat) (s0 s' : Sys) : Prop where
+  found : ∃ ir, idRow? s0.cur n = some ir ∧
+    s'.cur.keys.rows = s0.cur.keys.rows.filter (fun r => !decide (r.name ∈ keyIter s0.cur ir.rid)) ∧
+    (∀ c ∈ s'.cur.certs.rows, c ∈ s0.cur.certs.rows ∧
+      ∀ kr ∈ s0.cur.keys.rows, kr.name ∈ keyIter s0.cur ir.rid → c.owner ≠ kr.rid) ∧
+    s'.tpm = s0.tpm.filter (fun x => !decide (x ∈ keyIter s0.cur ir.rid)) ∧ s'.nextKid = s0.nextKid
+  idsGone : s'.cur.ids.rows = s0.cur.ids.rows.filter (fun r => !decide (r.name = n))
+  committed : s'.com = s'.cur
+  cache : s'.cache = []
+
+theorem delIdentity_spec (n : Nat) (s0 : Sys) (hn : NamesU s0.cur.keys.rows) :
+    Triple (AtDb s0.cur s0.tpm s0.nextKid) (delIdentity n) (fun _ s' => DelIdPost n s0 s') (fun _ _ => True) := by
+  unfold delIdentity
+  refine Triple.bind (lookupId_spec _ _ _ n) fun ir => ?_
+  refine Triple.bind (Q' := fun a s => (AtDb s0.cur s0.tpm s0.nextKid s ∧ idRow? s0.cur n = some ir) ∧ a = s)
+    Triple.getS fun a => ?_
+  -- the part of the postcondition that the remaining steps do not touch
+  let Core : Sys → Prop := fun s =>
+    idRow? s0.cur n = some ir ∧
+    s.cur.keys.rows = s0.cur.keys.rows.filter (fun r => !decide (r.name ∈ keyIter s0.cur ir.rid)) ∧
+    (∀ c ∈ s.cur.certs.rows, c ∈ s0.cur.certs.rows ∧
+      ∀ kr ∈ s0.cur.keys.rows, kr.name ∈ keyIter s0.cur ir.rid → c.owner ≠ kr.rid) ∧
+    s.tpm = s0.tpm.filter (fun x => !decide (x ∈ keyIter s0.cur ir.rid)) ∧ s.nextKid = s0.nextKid
+  refine Triple.bind (Q' := fun _ s => Core s ∧ s.cur.ids = s0.cur.ids) ?_ fun _ => ?_
+  · intro s h
+    obtain ⟨⟨h1, h2⟩, rfl⟩ := h
+    have := delKeys_spec (keyIter s0.cur ir.rid) s0 hn a h1
+    rw [h1.1]
+    rcases hm : (delKeys (keyIter s0.cur ir.rid)).run a with ⟨e | u, s'⟩ <;> simp only [hm] at this ⊢
+    exact ⟨⟨h2, this.keys, this.certs, this.tpm, this.kid⟩, this.ids⟩
+  have fi1 : FI (fun s => Core s ∧ s.cur.ids = s0.cur.ids) := fun _ _ h => h
+  refine Triple.bind (Triple.tickT fi1) fun _ => ?_
+  let Pd : Sys → Prop := fun s => Core s ∧ s.cur.ids.rows = s0.cur.ids.rows.filter (fun r => !decide (r.name = n))
+  have fiD : FI Pd := fun _ _ h => h
+  refine Triple.bind (Q' := fun _ => Pd) (Triple.modS fun s h => ?_) fun _ => ?_
+  · refine ⟨h.1, ?_⟩
+    show (s.cur.ids.delete false _).rows = _
+    rw [h.2]; rfl
+  have fiE : FI (fun s => Pd s ∧ s.com = s.cur) := fun _ _ h => h
+  refine Triple.bind (Q' := fun _ s => Pd s ∧ s.com = s.cur) ?_ fun _ => ?_
+  · unfold commit
+    exact Triple.bind (Triple.tickT fiD) fun _ => Triple.modS fun s h => ⟨h, rfl⟩
+  refine Triple.modS fun s h => ?_
+  obtain ⟨⟨⟨h1, h2, h3, h4, h4'⟩, h5⟩, h6⟩ := h
+  exact { found := ⟨ir, h1, h2, h3, h4, h4'⟩, idsGone := h5, committed := h6, cache := rfl }
+
+/-! ### Part 5: without storage failures every operation ends committed -/
+
+/-- no failure scheduled, nothing uncommitted -/
+def NFc (s : Sys) : Prop := s.fault = none ∧ s.cur = s.com
+/-- no failure scheduled (uncommitted work allowed) -/
+def NFd (s : Sys) : Prop := s.fault = none
+
+section Clean
+variable {α : Type} {E : KErr → Sys → Prop}
+
+theorem Triple.tickNF {P : Sys → Prop} (h : ∀ s, P s → s.fault = none) :
+    Triple P Keychain.tick (fun _ => P) E := by
+  intro s hs
+  rw [run_tick, h s hs]
+  exact hs
+
+theorem nfc_pres {m : M α} (h : Pres NFc m) : Triple NFc m (fun _ => NFc) (fun e s => e = .integrityError ∨ NFc s) :=
+  Triple.conseq h (fun _ h => h) (fun _ _ h => h) (fun _ _ h => Or.inr h)
+
+/-- a database write: clean or dirty → dirty -/
+theorem nf_modCur (f : Db → Db) : Triple NFd (modCur f) (fun _ => NFd) E := Triple.modS fun _ h => h
+
+theorem nf_commit : Triple NFd commit (fun _ => NFc) E :=
+  Triple.bind (Triple.tickNF fun _ h => h) fun _ => Triple.modS fun _ h => ⟨h, rfl⟩
+
+theorem nfd_of_nfc {s : Sys} (h : NFc s) : NFd s := h.1
+
+/-- the three inserts: an IntegrityError is raised before anything is written -/
+theorem nf_execInsertId (n : Nat) : Triple NFc (execInsertId n) (fun _ => NFd) (fun _ => NFc) := by
+  refine Triple.bind (Triple.tickNF fun _ h => h.1) fun _ => Triple.bind (Q' := fun _ => NFc) (fun _ h => h) fun a => ?_
+  split
+  · exact Triple.raise fun _ h => h
+  · exact Triple.modS fun _ h => h.1
+
+theorem nf_execInsertKey (o : Nat) (k : KeyName) : Triple NFc (execInsertKey o k) (fun _ => NFd) (fun _ => NFc) := by
+  refine Triple.bind (Triple.tickNF fun _ h => h.1) fun _ => Triple.bind (Q' := fun _ => NFc) (fun _ h => h) fun a => ?_
+  split
+  · exact Triple.raise fun _ h => h
+  · exact Triple.modS fun _ h => h.1
+
+theorem nf_execInsertCert (k : KeyName) (c : CertName) :
+    Triple NFc (execInsertCert k c) (fun _ => NFd) (fun _ => NFc) := by
+  refine Triple.bind (Triple.tickNF fun _ h => h.1) fun _ => Triple.bind (Q' := fun _ => NFc) (fun _ h => h) fun a => ?_
+  split
+  · exact Triple.raise fun _ h => h
+  · split
+    · exact Triple.raise fun _ h => h
+    · exact Triple.modS fun _ h => h.1
+
+/-- … but from a dirty state (inside `new_key`) the only thing known is that it is an IntegrityError -/
+theorem nf_execInsertCert_dirty (k : KeyName) (c : CertName) :
+    Triple NFd (execInsertCert k c) (fun _ => NFd) (fun e _ => e = .integrityError) := by
+  refine Triple.bind (Triple.tickNF fun _ h => h) fun _ => Triple.bind (Q' := fun _ => NFd) (fun _ h => h) fun a => ?_
+  split
+  · exact Triple.raise fun _ _ => rfl
+  · split
+    · exact Triple.raise fun _ _ => rfl
+    · exact Triple.modS fun _ h => h
+
+theorem nf_execSetDefaultId (n : Nat) : Triple NFc (execSetDefaultId n) (fun _ => NFd) E :=
+  Triple.bind (Triple.tickNF fun _ h => h.1) fun _ => Triple.modS fun _ h => h.1
+theorem nf_execSetDefaultKey (k : KeyName) : Triple NFc (execSetDefaultKey k) (fun _ => NFd) E :=
+  Triple.bind (Triple.tickNF fun _ h => h.1) fun _ => Triple.modS fun _ h => h.1
+theorem nf_execSetDefaultCert (c : CertName) : Triple NFc (execSetDefaultCert c) (fun _ => NFd) E :=
+  Triple.bind (Triple.tickNF fun _ h => h.1) fun _ => Triple.modS fun _ h => h.1
+
+theorem Pres.lookupId' {I : Sys → Prop} (n : Nat) : Pres I (lookupId n) :=
+  Pres.bind Pres.getS fun _ => Pres.ofOpt _ _
+theorem Pres.lookupKey' {I : Sys → Prop} (k : KeyName) : Pres I (lookupKey k) :=
+  Pres.bind (Pres.lookupId' _) fun _ => Pres.bind Pres.getS fun _ => Pres.ofOpt _ _
+
+theorem nfc_tick : Pres NFc Keychain.tick := Triple.tickNF fun _ h => h.1
+
+theorem nfc_setDefaultIdentity (n : Nat) : Pres NFc (setDefaultIdentity n) :=
+  Triple.bind (nf_execSetDefaultId n) fun _ => nf_commit
+
+theorem nfc_newIdentity (n : Nat) : Pres NFc (newIdentity n) := by
+  unfold newIdentity
+  refine Pres.bind Pres.getS fun _ => Pres.bind (Pres.raiseIf _ _) fun _ =>
+    Triple.bind (nf_execInsertId n) fun _ => Triple.bind nf_commit fun _ => Pres.bind Pres.getS fun _ =>
+    Pres.bind (Pres.whenM (nfc_setDefaultIdentity n)) fun _ =>
+    Pres.bind (Pres.lookupId' n) fun _ => Pres.pure _
+
+/-- `new_key`: clean afterwards, unless it raised IntegrityError (the freshly generated key name or its
+    self-signed certificate's name was already in the database) -/
+theorem nfc_newKey (n : Nat) (bad : Bool) :
+    Triple NFc (newKey n bad) (fun _ => NFc) (fun e s => e = .integrityError ∨ NFc s) := by
+  unfold newKey
+  refine Triple.bind (nfc_pres (Pres.lookupId' n)) fun i => Triple.bind (nfc_pres nfc_tick) fun _ =>
+    Triple.bind (nfc_pres (Pres.raiseIf _ _)) fun _ => Triple.bind (nfc_pres Pres.getS) fun a =>
+    Triple.bind (Q' := fun _ => NFc) (Triple.modS fun _ h => h) fun _ => Triple.bind (nfc_pres nfc_tick) fun _ =>
+    Triple.bind (nfc_pres Pres.getS) fun _ => Triple.bind (nfc_pres (Pres.raiseIf _ _)) fun _ =>
+    Triple.bind (Q' := fun _ => NFd) (Triple.conseq (nf_execInsertKey _ _) (fun _ h => h) (fun _ _ h => h) (fun _ _ h => Or.inr h)) fun _ =>
+    Triple.bind (Q' := fun _ => NFd) (Triple.conseq (nf_execInsertCert_dirty _ _) (fun _ h => h) (fun _ _ h => h) (fun _ _ h => Or.inl h)) fun _ =>
+    Triple.bind (Q' := fun _ => NFc) nf_commit fun _ => ?_
+  exact nfc_pres (Pres.bind Pres.getS fun _ =>
+    Pres.bind (Pres.whenM (Triple.bind (nf_execSetDefaultKey _) fun _ => nf_commit)) fun _ =>
+    Pres.bind Pres.getS fun _ => Pres.bind (Pres.ofOpt _ _) fun _ => Pres.pure _)
+
+theorem nfc_touchIdentity (n : Nat) :
+    Triple NFc (touchIdentity n) (fun _ => NFc) (fun e s => e = .integrityError ∨ NFc s) := by
+  unfold touchIdentity
+  refine Triple.bind (nfc_pres Pres.getS) fun _ => Triple.bind (Q' := fun _ => NFc) ?_ fun _ =>
+    nfc_pres (Pres.bind Pres.getS fun _ => Pres.bind (Pres.whenM (nfc_setDefaultIdentity n)) fun _ =>
+      Pres.bind (Pres.lookupId' n) fun _ => Pres.pure _)
+  unfold whenM
+  split
+  · exact Triple.bind (Q' := fun _ => NFd) (Triple.conseq (nf_execInsertId n) (fun _ h => h) (fun _ _ h => h) (fun _ _ h => Or.inr h)) fun _ =>
+      Triple.bind (Q' := fun _ => NFc) nf_commit fun _ => nfc_newKey n false
+  · exact Triple.pure fun _ h => h
+
+theorem nfc_importCert (k : KeyName) (c : CertName) : Pres NFc (importCert k c) :=
+  Triple.bind (nf_execInsertCert k c) fun _ => nf_commit
+
+theorem nfc_setDefaultKey (v : Nat) (k : KeyName) : Pres NFc (setDefaultKey v k) :=
+  Pres.bind (Pres.lookupId' v) fun _ => Triple.bind (nf_execSetDefaultKey k) fun _ => nf_commit
+
+theorem nfc_setDefaultCert (v : KeyName) (c : CertName) : Pres NFc (setDefaultCert v c) :=
+  Pres.bind (Pres.lookupKey' v) fun _ => Triple.bind (nf_execSetDefaultCert c) fun _ => nf_commit
+
+theorem nfc_clearCache : Pres NFc clearCache := Pres.modS fun _ h => h
+
+theorem nfc_delCert (c : CertName) : Pres NFc (delCert c) :=
+  Pres.bind nfc_tick fun _ => Triple.bind (Q' := fun _ => NFd) (Triple.modS fun _ h => h.1) fun _ =>
+    Triple.bind nf_commit fun _ => nfc_clearCache
+
+theorem nfc_delKey (k : KeyName) : Pres NFc (delKey k) := by
+  unfold delKey
+  exact Pres.bind (Pres.lookupKey' k) fun kr => Pres.bind nfc_tick fun _ =>
+    Triple.bind (Q' := fun _ => NFd) (Triple.modS fun _ h => h.1) fun _ =>
+    Triple.bind (Q' := fun _ => NFd) (Triple.tickNF fun _ h => h) fun _ =>
+    Triple.bind (Q' := fun _ => NFd) (Triple.modS fun _ h => h) fun _ =>
+    Triple.bind nf_commit fun _ => Pres.bind nfc_tick fun _ =>
+    Pres.bind (Pres.modS fun _ h => h) fun _ => nfc_clearCache
+
+theorem nfc_delKeys (ks : List KeyName) : Pres NFc (delKeys ks) := by
+  induction ks with
+  | nil => exact Pres.pure _
+  | cons k r ih => exact Pres.bind (nfc_delKey k) fun _ => ih
+
+theorem nfc_delIdentity (n : Nat) : Pres NFc (delIdentity n) := by
+  unfold delIdentity
+  exact Pres.bind (Pres.lookupId' n) fun _ => Pres.bind Pres.getS fun _ => Pres.bind (nfc_delKeys _) fun _ =>
+    Pres.bind nfc_tick fun _ => Triple.bind (Q' := fun _ => NFd) (Triple.modS fun _ h => h.1) fun _ =>
+    Triple.bind nf_commit fun _ => nfc_clearCache
+
+theorem nfc_getSigner (sel : Sel) (loc : Option Nat) : Pres NFc (getSigner sel loc) := by
+  unfold getSigner
+  refine Pres.bind Pres.getS fun a => Pres.bind (Pres.ofOpt _ _) fun kc => ?_
+  obtain ⟨k, c⟩ := kc
+  dsimp only
+  split
+  · exact Pres.pure _
+  · refine Pres.bind nfc_tick fun _ => ?_
+    split
+    · exact Pres.bind (Pres.modS fun _ h => h) fun _ => Pres.pure _
+    · exact Pres.raise _
+
+/-- is this operation one that generates a key? -/
+def Op.keyGen : Op → Bool
+  | .newKey _ _ => true
+  | .touchIdentity _ => true
+  | _ => false
+
+theorem nfc_prog (op : Op) :
+    Triple NFc op.prog (fun _ => NFc) (fun e s => (op.keyGen = true ∧ e = .integrityError) ∨ NFc s) := by
+  cases op <;> simp only [Op.prog, Op.keyGen]
+  · exact Triple.conseq (Pres.bind (nfc_newIdentity _) fun _ => Pres.pure _) (fun _ h => h) (fun _ _ h => h) (fun _ _ h => Or.inr h)
+  · refine Triple.bind (Q' := fun _ => NFc) (Triple.conseq (nfc_touchIdentity _) (fun _ h => h) (fun _ _ h => h) ?_) fun _ => Triple.pure fun _ h => h
+    exact fun e s h => h.elim (fun h => Or.inl ⟨trivial, h⟩) Or.inr
+  · refine Triple.bind (Q' := fun _ => NFc) (Triple.conseq (nfc_newKey _ _) (fun _ h => h) (fun _ _ h => h) ?_) fun _ => Triple.pure fun _ h => h
+    exact fun e s h => h.elim (fun h => Or.inl ⟨trivial, h⟩) Or.inr
+  · exact Triple.conseq (Pres.bind (nfc_importCert _ _) fun _ => Pres.pure _) (fun _ h => h) (fun _ _ h => h) (fun _ _ h => Or.inr h)
+  · exact Triple.conseq (Pres.bind (nfc_setDefaultIdentity _) fun _ => Pres.pure _) (fun _ h => h) (fun _ _ h => h) (fun _ _ h => Or.inr h)
+  · exact Triple.conseq (Pres.bind (nfc_setDefaultKey _ _) fun _ => Pres.pure _) (fun _ h => h) (fun _ _ h => h) (fun _ _ h => Or.inr h)
+  · exact Triple.conseq (Pres.bind (nfc_setDefaultCert _ _) fun _ => Pres.pure _) (fun _ h => h) (fun _ _ h => h) (fun _ _ h => Or.inr h)
+  · exact Triple.conseq (Pres.bind (nfc_delIdentity _) fun _ => Pres.pure _) (fun _ h => h) (fun _ _ h => h) (fun _ _ h => Or.inr h)
+  · exact Triple.conseq (Pres.bind (nfc_delKey _) fun _ => Pres.pure _) (fun _ h => h) (fun _ _ h => h) (fun _ _ h => Or.inr h)
+  · exact Triple.conseq (Pres.bind (nfc_delCert _) fun _ => Pres.pure _) (fun _ h => h) (fun _ _ h => h) (fun _ _ h => Or.inr h)
+  · exact Triple.conseq (Pres.bind (Pres.bind (Pres.lookupKey' _) fun _ => Pres.raise _) fun _ => Pres.pure _) (fun _ h => h) (fun _ _ h => h) (fun _ _ h => Or.inr h)
+  · exact Triple.conseq (Pres.bind (nfc_getSigner _ _) fun _ => Pres.pure _) (fun _ h => h) (fun _ _ h => h) (fun _ _ h => Or.inr h)
+  · exact Triple.conseq (Pres.bind (Pres.modS (I := NFc) (f := fun s => { s with cur := s.com, cache := [] }) fun _ h => ⟨h.1, rfl⟩) fun _ => Pres.pure _) (fun _ h => h) (fun _ _ h => h) (fun _ _ h => Or.inr h)
+
+end Clean
 
 end Ndn.Keychain
